@@ -526,6 +526,43 @@ func TestPropInjectedTypeErrors(t *testing.T) {
 			target.Anchor = anchor
 			injected++
 		}
+		// now and then a back-edge: a collection that reaches an enclosing anchored collection again,
+		// as a value (value cycle: must be rejected) or through a merge (tolerated, or a value cycle
+		// when the merged pairs contain the way back) - never a crash
+		cyc := false
+		if rapid.IntRange(0, 5).Draw(t, "cycle") == 0 {
+			var colls []*yaml.Node
+			for _, n := range nodes {
+				if (n.Kind == yaml.MappingNode || n.Kind == yaml.SequenceNode) && len(n.Content) > 0 {
+					colls = append(colls, n)
+				}
+			}
+			if len(colls) > 0 {
+				anc := colls[rapid.IntRange(0, len(colls)-1).Draw(t, "cycanc")]
+				var desc []*yaml.Node
+				allNodes(anc, &desc, map[*yaml.Node]bool{})
+				var dcolls []*yaml.Node
+				for _, n := range desc {
+					if n.Kind == yaml.MappingNode || n.Kind == yaml.SequenceNode {
+						dcolls = append(dcolls, n)
+					}
+				}
+				d := dcolls[rapid.IntRange(0, len(dcolls)-1).Draw(t, "cycdesc")]
+				if anc.Anchor == "" {
+					anc.Anchor = "cyc"
+				}
+				back := doc.AliasNode(anc)
+				switch {
+				case d.Kind == yaml.SequenceNode:
+					d.Content = append(d.Content, back)
+				case anc.Kind == yaml.MappingNode && rapid.Bool().Draw(t, "cycmerge"):
+					d.Content = append(d.Content, doc.MergeKey(), back)
+				default:
+					d.Content = append(d.Content, doc.StrNode("back"), back)
+				}
+				cyc = true
+			}
+		}
 		var buf bytes.Buffer
 		enc := yaml.NewEncoder(&buf)
 		enc.SetIndent(2)
@@ -580,6 +617,9 @@ func TestPropInjectedTypeErrors(t *testing.T) {
 		}
 		if oc.groupDepth > 0 {
 			cls = append(cls, "groups-checked")
+		}
+		if cyc {
+			cls = append(cls, "back-edge-injected")
 		}
 		recGen.Case(ev.HashBytes(text), nt, cls...)
 		recGen.MaybeSample(nt, func() any { return string(text[:min(len(text), 1000)]) })
@@ -677,6 +717,9 @@ var hostile = []string{
 	"steps:\n  - command: x\n    \"<<\": 1\n", "steps:\n  - trigger: t\n    build: {env: {A: .inf}}\n", strings.Repeat("[", 200), strings.Repeat("{a: ", 100),
 	"steps:\n" + strings.Repeat("  - wait\n", 300),
 	"steps:\n  - <<: &loop [{label: hello}, *loop]\n    command: test\n",
+	"b: &b {k: {<<: *b}}\nsteps: [wait]\n",
+	"steps:\n  - &s\n    command: x\n    agents: {q: [{<<: *s}]}\n",
+	"b: &b\n  k:\n    - <<: [*b]\nsteps: []\n",
 	"x: &x [*x]\nsteps:\n  - <<: *x\n    command: y\n",
 	"steps:\n  - <<: &p [&q [*p], *q, {label: l}]\n    command: z\n",
 	"d: &d {a: 1}\nsteps:\n  - <<: &s [*d, [*d, *s]]\n    command: z\n",
